@@ -89,3 +89,42 @@ theorem SE3Quat_exp_neg (x : Fin 6 → ℝ) (h : eps ≤ C02.usq (C02.rotv x) / 
   rw [C02.SE3Quat_exp _ hn, C02.SE3Quat_exp _ h, e, exp_neg_mul]
 
 end C02C
+
+namespace C02C
+open Gen Rot RotExp NormedSpace SeriesLemmas
+
+/-! ## SO(3) and SE(3), MRP form (away from the 360° singularity of tan(θ/4)) -/
+theorem SO3Mrp_exp_add (x : Fin 3 → ℝ) (s t : ℝ)
+    (hs : eps ≤ C02.usq (s • x)) (ht : eps ≤ C02.usq (t • x)) (hst : eps ≤ C02.usq ((s + t) • x))
+    (cs : Real.cos (Real.sqrt (nsq (s • x)) / 4) ≠ 0) (ct : Real.cos (Real.sqrt (nsq (t • x)) / 4) ≠ 0)
+    (cst : Real.cos (Real.sqrt (nsq ((s + t) • x)) / 4) ≠ 0) :
+    SO3Mrp.toMatrix.M_mat (SO3Mrp.exp.r_vec ((s + t) • x))
+      = SO3Mrp.toMatrix.M_mat (SO3Mrp.exp.r_vec (s • x)) * SO3Mrp.toMatrix.M_mat (SO3Mrp.exp.r_vec (t • x)) := by
+  rw [(C02.SO3Mrp_exp _ hs cs).2, (C02.SO3Mrp_exp _ ht ct).2, (C02.SO3Mrp_exp _ hst cst).2, so3_hat_smul, so3_hat_smul, so3_hat_smul,
+    exp_add_smul]
+
+theorem SO3Mrp_exp_neg (x : Fin 3 → ℝ) (h : eps ≤ C02.usq x) (hc : Real.cos (Real.sqrt (nsq x) / 4) ≠ 0) :
+    SO3Mrp.toMatrix.M_mat (SO3Mrp.exp.r_vec (-x)) * SO3Mrp.toMatrix.M_mat (SO3Mrp.exp.r_vec x) = 1 := by
+  have hn : eps ≤ C02.usq (-x) := by simpa [C02.usq] using h
+  have hcn : Real.cos (Real.sqrt (nsq (-x)) / 4) ≠ 0 := by simpa [nsq] using hc
+  have e : so3.toMatrix.M_mat (-x) = -so3.toMatrix.M_mat x := by
+    have := so3_hat_smul (-1) x; simpa using this
+  rw [(C02.SO3Mrp_exp _ hn hcn).2, (C02.SO3Mrp_exp _ h hc).2, e, exp_neg_mul]
+
+theorem SE3Mrp_exp_add (x : Fin 6 → ℝ) (s t : ℝ)
+    (hs : eps ≤ C02.usq (C02.rotv (s • x))) (ht : eps ≤ C02.usq (C02.rotv (t • x))) (hst : eps ≤ C02.usq (C02.rotv ((s + t) • x)))
+    (cs : Real.cos (Real.sqrt (nsq (C02.rotv (s • x))) / 4) ≠ 0) (ct : Real.cos (Real.sqrt (nsq (C02.rotv (t • x))) / 4) ≠ 0)
+    (cst : Real.cos (Real.sqrt (nsq (C02.rotv ((s + t) • x))) / 4) ≠ 0) :
+    SE3Mrp.toMatrix.M_mat (SE3Mrp.exp.r_vec ((s + t) • x))
+      = SE3Mrp.toMatrix.M_mat (SE3Mrp.exp.r_vec (s • x)) * SE3Mrp.toMatrix.M_mat (SE3Mrp.exp.r_vec (t • x)) := by
+  rw [C02.SE3Mrp_exp _ hs cs, C02.SE3Mrp_exp _ ht ct, C02.SE3Mrp_exp _ hst cst, se3_hat_smul, se3_hat_smul, se3_hat_smul, exp_add_smul]
+
+theorem SE3Mrp_exp_neg (x : Fin 6 → ℝ) (h : eps ≤ C02.usq (C02.rotv x)) (hc : Real.cos (Real.sqrt (nsq (C02.rotv x)) / 4) ≠ 0) :
+    SE3Mrp.toMatrix.M_mat (SE3Mrp.exp.r_vec (-x)) * SE3Mrp.toMatrix.M_mat (SE3Mrp.exp.r_vec x) = 1 := by
+  have hn : eps ≤ C02.usq (C02.rotv (-x)) := by simpa [C02.usq, C02.rotv] using h
+  have hcn : Real.cos (Real.sqrt (nsq (C02.rotv (-x))) / 4) ≠ 0 := by simpa [nsq, C02.rotv] using hc
+  have e : se3.toMatrix.M_mat (-x) = -se3.toMatrix.M_mat x := by
+    have := se3_hat_smul (-1) x; simpa using this
+  rw [C02.SE3Mrp_exp _ hn hcn, C02.SE3Mrp_exp _ h hc, e, exp_neg_mul]
+
+end C02C
